@@ -188,6 +188,7 @@ def user_contents(wt, pool):
             except Exception:
                 mm = {}
             helpers = set()
+            helper_basenames = set()
             try:
                 for c in wt.conflicts():
                     try:
@@ -195,6 +196,9 @@ def user_contents(wt, pool):
                     except NotImplementedError:
                         continue
                     helpers.update(names)
+                    # the directory that held the conflicted file may have been renamed (and the file moved out of it):
+                    # the helper files stay in that directory under its new name, so recognise them by basename too
+                    helper_basenames.update(n.rpartition("/")[2] for n in names)
                     # the conflicted file (or its directory) may have been renamed since: the helper files moved with the
                     # directory, and resolve() finds them again once revert has moved things back
                     fid_c = getattr(c, "file_id", None)
@@ -244,7 +248,7 @@ def user_contents(wt, pool):
                     why = "not-written-by-user-phase"
                 elif fid is not None and mm.get(path) == _sha(content):
                     why = "merge-modified-current-sha"
-                elif path in helpers:
+                elif path in helpers or (fid is None and path.rpartition("/")[2] in helper_basenames):
                     why = "conflict-helper-of-earlier-merge"
                 if why:
                     excl[why] = excl.get(why, 0) + 1
